@@ -169,6 +169,15 @@ def do_op(root: Path, op: str, spelling: str, out_tag: str):
         sd["added"] = 4
         sd.dump(P(f"ld_{out_tag}"))
         return ("data", canon(dictIO.DictReader.read(ld)))
+    if op == "wfw":
+        # one dict object (nested underscore keys, as XML-derived dicts have them) written natively, as Foam, natively again:
+        # the second native file has the bytes of the first (what was written in between is no input of a write)
+        d = {"solver": {"_tolerance": 1e-6, "iter": 50, "settings": {"_note": "private", "x": 1}}, "schemes": [{"_order": 2, "name": "upwind"}], "_top": 0}
+        dictIO.DictWriter.write(d, P(f"wfw1_{out_tag}"), mode="w")
+        dictIO.DictWriter.write(d, P(f"wfw_{out_tag}.foam"), mode="w")
+        dictIO.DictWriter.write(d, P(f"wfw2_{out_tag}"), mode="w")
+        b1, b2 = (root / f"wfw1_{out_tag}").read_bytes(), (root / f"wfw2_{out_tag}").read_bytes()
+        return ("data", "same" if b1 == b2 else f"the native write after the Foam write differs from the one before it: {b2[-300:]!r} vs {b1[-300:]!r}")
     if op == "rwr":
         # read a file, rewrite it through the library under its plain absolute name, read it again under the first spelling:
         # the second read returns what the file holds now
@@ -184,7 +193,7 @@ def do_op(root: Path, op: str, spelling: str, out_tag: str):
 
 
 PREFIX_OPS = ["read1", "read2", "read3", "write", "parse", "dumpload", "reset", "read1o", "parsex7", "parsex8"]
-OBSERVED = ["read9", "parse9", "rwr", "parsex7", "parsex8", "read1", "read1o", "read1n", "read2", "read3", "read4", "read5", "read6", "parse6", "write", "writeo", "parse", "parseo", "parsej", "parse4", "dumpload", "writeback", "loaddump"]
+OBSERVED = ["wfw", "read9", "parse9", "rwr", "parsex7", "parsex8", "read1", "read1o", "read1n", "read2", "read3", "read4", "read5", "read6", "parse6", "write", "writeo", "parse", "parseo", "parsej", "parse4", "dumpload", "writeback", "loaddump"]
 CWDS = [".", "sub", "sub/deep", "other"]
 # every offset of the wrap inside one read of f1 (about 14 placeholders): each placeholder gets id 0 under one of them
 COUNTERS = [-1, 5] + list(range(999984, 1000000))
@@ -231,6 +240,8 @@ def oracle(case: dict):
         got = run_scenario(case)
     except Exception as e:  # noqa: BLE001
         return ("raises", f"{case['observed']} raised {type(e).__name__}: {e} in scenario {case}")
+    if case["observed"] == "wfw" and got[1] != "same":
+        return ("differs", f"wfw: {got[1]}")
     if got != ref and got[0] == "bytes" and case["observed"] == "parsej":
         import re
 
